@@ -80,7 +80,7 @@ _WIDE_SIGMA = {(16, 16): 1.3, (12, 16): 1.5, (10, 14): 1.3, (9, 9): 1.5, (8, 12)
 
 
 def _kernel(rng, Q, H, W, idx):
-    kind = ["random", "single_tap", "gaussian", "motion", "full_size", "even", "one", "asym_small", "int_weights", "int_weights_asym", "wide_gaussian"][idx % 11]
+    kind = ["random", "single_tap", "gaussian", "motion", "full_size", "even", "one", "asym_small", "int_weights", "int_weights_asym", "wide_gaussian", "even_flip_symmetric"][idx % 12]
     if kind == "random":
         kH, kW = int(rng.integers(1, H + 1)), int(rng.integers(1, W + 1))
         psf = rng.random((kH, kW))
@@ -93,6 +93,23 @@ def _kernel(rng, Q, H, W, idx):
         while 2 * rad + 1 > min(H, W):
             rad -= 1
         psf = Q.build_psf_gaussian(max(rad, 0), float(rng.choice([0.5, 1.0, 2.0])))
+    elif kind == "even_flip_symmetric":
+        # an even-sized kernel whose values equal their own 180-degree flip (box, Gaussian sampled at half-integer offsets, equal columns):
+        # its documented centre tap k//2 is half a sample off the symmetry centre, so the operator is NOT symmetric
+        kH = min(H, int(rng.choice([1, 2, 3, 4])))
+        kW = min(W, int(rng.choice([2, 4, 2, 3])))
+        if kH % 2 and kW % 2:
+            kW = min(W, 2) if W >= 2 else kW
+        variant = int(rng.integers(0, 3))
+        if variant == 0:
+            psf = np.ones((kH, kW))
+        elif variant == 1:
+            gy = np.exp(-0.5 * ((np.arange(kH) - (kH - 1) / 2.0) / 0.9) ** 2)
+            gx = np.exp(-0.5 * ((np.arange(kW) - (kW - 1) / 2.0) / 0.9) ** 2)
+            psf = np.outer(gy, gx)
+        else:
+            half = rng.random((kH, kW))
+            psf = half + half[::-1, ::-1]
     elif kind == "wide_gaussian":
         # a Gaussian as wide as the image allows: the transfer function gets tiny (1e-4 .. 1e-8 of its maximum) but stays non-zero,
         # i.e. the blur is invertible and badly conditioned
